@@ -19,6 +19,7 @@ CHECKS = {
     "C09": "mc.checks.c09",
     "C10": "mc.checks.c10",
     "C11": "mc.checks.c11",
+    "C15": "mc.checks.c15",
     "C16": "mc.checks.c16",
     "C17": "mc.checks.c17",
     "C19": "mc.checks.c19",
